@@ -7,6 +7,8 @@ the trained member of a group yields `state actor prev feats labels`; every othe
 applied holding its trained sibling's state of the same run, or — without a trained sibling in the
 segment — the stored state of its group when the group is persistent; `prev` is the stored state of a
 persistent group; the new generation is the list of dumped trained states in persistent-list order.
+A state that is falsy in Python is "no state" for the actor it is offered to (`Val.asState`: forml's state setter
+skips it, the actor stays as built) — but it is a state like any other for the dumper and the committer.
 
 Core Lean only.
 -/
@@ -35,14 +37,15 @@ def nodeVal (g : Segment) (A : Option Assets) : Nat → Uid → Val
         | none => .error .unbound
       if g.trained n then
         match g.publisher n .train, g.publisher n .label with
-        | some x, some y => .state w.actor (if w.stateful then storedState A w.gid else .none) (portVal x) (portVal y)
+        | some x, some y =>
+          .state w.actor (if w.stateful then (storedState A w.gid).asState else .none) (portVal x) (portVal y)
         | _, _ => .error .arity
       else
         let st : Val :=
           if !w.stateful then .none
           else match g.trainerOf w.gid with
-            | some t => nodeVal g A f t.uid
-            | none => storedState A w.gid
+            | some t => (nodeVal g A f t.uid).asState
+            | none => (storedState A w.gid).asState
         .apply w.actor st ((List.range w.szin).filterMap (fun i => (g.publisher n (.apply i)).map portVal))
 
 def evalFuel (g : Segment) : Nat := g.workers.length + 1
